@@ -138,6 +138,9 @@ def run(chk):
                                 what=what, tgt_syms=syms)
         chk.add_event(ev)
     chk.judge(chunk=60)
+    # the pure helper functions behind this property (spec/Helpers.tla)
+    from .helpers import run_helpers
+    run_helpers(chk, ('stay', 'gto'))
     return chk.finish(
         rule="each overlap_isr(order, block, indices) request is one event "
              "judged by TLC against the statement itself (antisymmetrised "
